@@ -301,10 +301,25 @@ Theorem C17_rrule_text_yields_posix_dates : forall m w d H M S y0 us tz,
 Proof. exact rrule_text_yields_posix_dates. Qed.
 Print Assumptions C17_rrule_text_yields_posix_dates.
 
+(* the rruleset wrapper: tzical calls rrulestr(..., compatible=True), which wraps the rule in an
+   rruleset and adds DTSTART as an rdate; with rset's C10 theorem (heapq discipline) the set yields
+   exactly the rule's own sequence = the POSIX rule dates as wall seconds *)
+From V Require Import rset.RSetModel rset.RSetSpec rset.RSetHist rset.RSetThm rset.RSetHeapq rset.RSetHeapqThm link.LinkSet.
+
+Theorem C17_rruleset_wrapper_is_posix_dates : forall m w d H M S y0,
+  1 <= m <= 12 -> 1 <= w <= 5 -> 0 <= d <= 6 -> RRBase.valid_hms H M S = true -> 1 <= y0 <= 9999 ->
+  forall rl limit n,
+  normalize (yearly_rule m w d H M S y0) = RRBase.Ok rl -> (0 < years_yielded n limit 0 y0)%nat ->
+  let L := map inst_code (fst (iterate rl limit n)) in
+  rset_iter heap_py [L] [date_of (DM m w d) y0 * DAY + tod H M S] [] [] = Some (L, Some (Z.of_nat (length L))) /\
+  L = map (fun y => date_of (DM m w d) y * DAY + tod H M S) (PosixThm.zrange (years_yielded n limit 0 y0) y0).
+Proof. exact rruleset_wrapper_is_posix_dates. Qed.
+Print Assumptions C17_rruleset_wrapper_is_posix_dates.
+
 (* ============================================================================================
    REGENERATED-FROM-SOURCE obligations.  coq/gen/IcalGen.v is rewritten by harness/gen_posix.py
    from the Python AST of /repo/src/dateutil/tz/tz.py on every run; see props/C08.v for the rules. *)
-From V Require Import gen.IcalGen posix.IcalGenThm.
+From V Require Import posix.IcalConcModel gen.IcalGen posix.IcalGenThm.
 
 (* tz._tzicalvtz: _find_compdt, utcoffset, dst, tzname (the call self._find_comp(dt) is read as the
    stateless component selection, justified by C17_cache_never_changes_an_answer and
@@ -335,17 +350,23 @@ Theorem C17_gen_rrulestr_dtstart_is_onset : gen_rrulestr_dtstart_is_onset = true
 Proof. exact gen_rrulestr_dtstart_lemma. Qed.
 Print Assumptions C17_gen_rrulestr_dtstart_is_onset.
 
-(* the rruleset wrapper: tzical calls rrulestr(..., compatible=True), which wraps the rule in an
-   rruleset and adds DTSTART as an rdate; with rset's C10 theorem (heapq discipline) the set yields
-   exactly the rule's own sequence = the POSIX rule dates as wall seconds *)
-From V Require Import rset.RSetModel rset.RSetSpec rset.RSetHist rset.RSetThm rset.RSetHeapq rset.RSetHeapqThm link.LinkSet.
+(* _tzicalvtz._find_comp, the component SELECTION (the accumulation loop over self._comps with the
+   strict `lastcompdt < compdt`, then `if not lastcomp:` the search loop for the first non-DST
+   component with its for/else default self._comps[0]): the regenerated code returns the component
+   the hand model's index selects (IndexError on an empty list in both) *)
+Theorem C17_gen_select_comp : forall cs w f,
+  gen_select_comp cs w f = get_comp cs (find_comp_nocache cs w f).
+Proof. exact gen_select_comp_eq. Qed.
+Print Assumptions C17_gen_select_comp.
 
-Theorem C17_rruleset_wrapper_is_posix_dates : forall m w d H M S y0,
-  1 <= m <= 12 -> 1 <= w <= 5 -> 0 <= d <= 6 -> RRBase.valid_hms H M S = true -> 1 <= y0 <= 9999 ->
-  forall rl limit n,
-  normalize (yearly_rule m w d H M S y0) = RRBase.Ok rl -> (0 < years_yielded n limit 0 y0)%nat ->
-  let L := map inst_code (fst (iterate rl limit n)) in
-  rset_iter heap_py [L] [date_of (DM m w d) y0 * DAY + tod H M S] [] [] = Some (L, Some (Z.of_nat (length L))) /\
-  L = map (fun y => date_of (DM m w d) y * DAY + tod H M S) (PosixThm.zrange (years_yielded n limit 0 y0) y0).
-Proof. exact rruleset_wrapper_is_posix_dates. Qed.
-Print Assumptions C17_rruleset_wrapper_is_posix_dates.
+(* _find_comp, the two regions under the lock, over the two parallel lists: the hit expression
+   _cachecomp[_cachedate.index((dt, fold))] and the insert block (insert at the front of both lists,
+   pop both beyond ten entries) are the hit / insert steps of the cache model (which stores the
+   INDEX of a component where the code stores the object: g maps one to the other) *)
+Theorem C17_gen_cache_regions : forall (g : nat -> comp) dates idxs w f c,
+  gen_cache_hit dates (map g idxs) w f =
+    match index_of dates (w, f) 0 with Some i => option_map g (nth_error idxs i) | None => None end /\
+  gen_cache_insert dates (map g idxs) w f (g c) =
+    (let sh := insert_front (mkSh dates idxs) (w, f) c in (sh_dates sh, map g (sh_comps sh))).
+Proof. exact gen_cache_regions_lemma. Qed.
+Print Assumptions C17_gen_cache_regions.
